@@ -86,5 +86,6 @@ func clen(b []byte) int {
 			return i
 		}
 	}
-	return len(b) + 1
+	// unterminated: the whole buffer is the string (len(b)+1 made callers slice past the end)
+	return len(b)
 }
